@@ -29,6 +29,7 @@ import AutomataVerif.Proofs.EpsOpsB
 import AutomataVerif.Proofs.NFAOpsUnary
 import AutomataVerif.Proofs.NFAOpsReverse
 import AutomataVerif.Proofs.NFAOpsBinary
+import AutomataVerif.Proofs.NFAOpsInter
 import AutomataVerif.Proofs.NFAOpsShuffle
 import AutomataVerif.Props.C01
 
@@ -159,6 +160,78 @@ theorem C08_union (A : AV.NFA σ₁ α) (B : AV.NFA σ₂ α) (hA : A.Valid) (hB
 /-- The operator `A | B` is `union`. -/
 theorem C08_or (A : AV.NFA σ₁ α) (B : AV.NFA σ₂ α) (hA : A.Valid) (hB : B.Valid) :
     ∃ R, NFA.orOp A B = .ok R ∧ R.Valid ∧ Lang R = Lang A + Lang B := C08_union A B hA hB
+
+/-! ## concatenate -/
+
+/-- **C08 (concatenate, `+`).**  `A.concatenate(B)` never fails, returns a valid NFA, and its
+language is `L(A) · L(B)`. -/
+theorem C08_concatenate (A : AV.NFA σ₁ α) (B : AV.NFA σ₂ α) (hA : A.Valid) (hB : B.Valid) :
+    ∃ R, NFA.concatenate A B = .ok R ∧ R.Valid ∧ Lang R = Lang A * Lang B := by
+  have hval := concatRaw_valid A B hA hB
+  refine ⟨concatRaw A B, ?_, hval, ?_⟩
+  · rw [concatenate_eq A B hA.wf hB.wf, create_eq_ok _ hval.wf]
+  · refine accepts_concat (nfaTextbook (concatRaw A B)) (nfaTextbook A) (nfaTextbook B)
+      {q | q ∈ A.states} {q | q ∈ B.states} (cφa A) (cφb A B) A.init B.init
+      (closed_states A hA.wf) (closed_states B hB.wf) hA.wf.initOk hB.wf.initOk rfl rfl rfl
+      ?_ ?_ ?_ ?_
+    · intro q hq a
+      ext p
+      simp only [nfaTextbook, Set.mem_ofPred_eq, Set.mem_image, Set.mem_union]
+      rw [concatRaw_targets_a A B hA hq a p]
+      constructor
+      · rintro (⟨t, ht, rfl⟩ | h)
+        · exact Or.inl ⟨t, ht, rfl⟩
+        · exact Or.inr h
+      · rintro (⟨t, ht, rfl⟩ | h)
+        · exact Or.inl ⟨t, ht, rfl⟩
+        · exact Or.inr h
+    · intro q hq a
+      ext p
+      simp only [nfaTextbook, Set.mem_ofPred_eq, Set.mem_image]
+      rw [concatRaw_targets_b A B hA.wf hB hq a p]
+      constructor
+      · rintro ⟨t, ht, rfl⟩; exact ⟨t, ht, rfl⟩
+      · rintro ⟨t, ht, rfl⟩; exact ⟨t, ht, rfl⟩
+    · intro q hq h
+      obtain ⟨q', _, e⟩ := (mem_concatRaw_finals A B _).mp h
+      exact cφa_ne_cφb A B hq q' e
+    · intro q hq
+      show cφb A B q ∈ (concatRaw A B).finals ↔ q ∈ B.finals
+      rw [mem_concatRaw_finals]
+      constructor
+      · rintro ⟨q', hq', e⟩
+        rw [cφb_inj A B q hq q' (hB.wf.finalsOk q' hq') e]; exact hq'
+      · intro h; exact ⟨q, h, rfl⟩
+
+/-- The operator `A + B` is `concatenate`. -/
+theorem C08_add (A : AV.NFA σ₁ α) (B : AV.NFA σ₂ α) (hA : A.Valid) (hB : B.Valid) :
+    ∃ R, NFA.addOp A B = .ok R ∧ R.Valid ∧ Lang R = Lang A * Lang B := C08_concatenate A B hA hB
+
+/-! ## intersection -/
+
+/-- **C08 (intersection, `&`).**  `A.intersection(B)` never fails (the work-list search stops
+within its fuel), returns a valid NFA, and its language is `L(A) ∩ L(B)`. -/
+theorem C08_intersection (A : AV.NFA σ₁ α) (B : AV.NFA σ₂ α) (hA : A.Valid) (hB : B.Valid) :
+    ∃ R, NFA.intersection A B = .ok R ∧ R.Valid ∧ Lang R = Lang A ⊓ Lang B := by
+  obtain ⟨R, hR, hval, _, hinit, hi, hcl, hnone, hsome, hfin⟩ := intersection_spec A B hA hB
+  refine ⟨R, hR, hval, ?_⟩
+  refine accepts_inter (nfaTextbook R) (nfaTextbook A) (nfaTextbook B) {s | s ∈ R.states}
+    A.init B.init rfl rfl ?_ hi ?_ ?_ ?_ ?_
+  · simp [nfaTextbook, hinit]
+  · intro s hs a t ht
+    exact hcl s hs a t ht
+  · intro s hs
+    ext t
+    exact hnone s hs t
+  · intro s hs a
+    ext t
+    exact hsome s hs a t
+  · intro s hs
+    exact hfin s hs
+
+/-- The operator `A & B` is `intersection`. -/
+theorem C08_and (A : AV.NFA σ₁ α) (B : AV.NFA σ₂ α) (hA : A.Valid) (hB : B.Valid) :
+    ∃ R, NFA.andOp A B = .ok R ∧ R.Valid ∧ Lang R = Lang A ⊓ Lang B := C08_intersection A B hA hB
 
 /-! ## reverse -/
 
